@@ -196,10 +196,10 @@ class Scratch:
             self.prior_bytes = None
             return
         os.makedirs(self.cachedir, exist_ok=True)
-        data = self.ctx.garbage if prior == "garbage" else self.ctx.old
+        data = self.ctx.garbage if prior.startswith("garbage") else self.ctx.old
         with open(self.cachefile, "wb") as f:
             f.write(data)
-        t = now if prior == "fresh" else now - 2 * 3600
+        t = now if prior in ("fresh", "garbage_fresh") else now - 2 * 3600
         os.utime(self.cachefile, (t, t))
         self.prior_bytes = data
 
@@ -566,13 +566,37 @@ def validate_traces(run, traces, label):
     return done, rejected
 
 
-def corrupted_selfcheck(run, good):
+def synthetic_good(ctx):
+    def ev(name, pc, src="none", flags=(), n=0, ok=True):
+        return {"ev": name, "path_class": pc, "src": src, "flags": list(flags), "n": n, "ok": ok}
+    case = {"prior": "stale", "entry": "startup", "server": {"mode": "ok", "k": 0, "code": 200}, "kill": None}
+    half = len(ctx.new) // 2
+    return [meta_event(ctx, case), ev("open", "cache", flags=["O_RDONLY", "O_CLOEXEC"]),
+            ev("open", "temp", flags=["O_RDWR", "O_CREAT", "O_EXCL", "O_CLOEXEC"]),
+            ev("write", "temp", n=half), ev("write", "temp", n=len(ctx.new) - half), ev("fsync", "temp"),
+            ev("rename", "cache", src="temp"), ev("exit", "other")]
+
+
+def corrupted_selfcheck(run, ctx, good):
     """a recorded successful refresh, corrupted in two ways, must be rejected by Trace_Cache"""
-    case, evs = good
+    evs = good[1] if good else []
     writes = [i for i, e in enumerate(evs) if e["ev"] == "write" and e["path_class"] == "temp"]
     ren = [i for i, e in enumerate(evs) if e["ev"] == "rename" and e["path_class"] == "cache"]
-    if not writes or not ren:
-        raise vlib.ToolError("self-check: the recorded successful refresh has no write/rename events")
+    if not writes or not ren or ren[0] < writes[-1]:
+        # the code under test produced no usable recording (it does not follow the protocol): use a
+        # hand-written run of the protocol instead, which must itself be accepted
+        evs = synthetic_good(ctx)
+        writes = [i for i, e in enumerate(evs) if e["ev"] == "write"]
+        ren = [i for i, e in enumerate(evs) if e["ev"] == "rename"]
+        path = vlib.workfile("c20-synth-%d.ndjson" % os.getpid())
+        vlib.write_ndjson(path, evs)
+        try:
+            ok, info = vlib.validate_trace("Trace_Cache", "Trace_Cache", path, tag="c20c")
+        finally:
+            os.remove(path)
+        if not ok:
+            raise vlib.ToolError("self-check: the hand-written protocol run was rejected by Trace_Cache")
+        run.note("selfcheck_trace_source", "hand-written (no protocol-conforming recording available)")
     a = [dict(e) for e in evs]
     a[writes[-1]]["path_class"] = "cache"                   # a write that lands in the cache file itself
     b = [dict(e) for e in evs]
@@ -677,7 +701,7 @@ def run(tier, seed):
     thorough = tier == "thorough"
     pieces = 5 if thorough else 3
     run.cov["rule"] = (
-        "G: every (prior cache in absent/fresh/stale/unreadable) x (server: complete 200 | 200 cut after each of the %d "
+        "G: every (prior cache in absent/fresh/stale/unreadable-old/unreadable-recent) x (server: complete 200 | 200 cut after each of the %d "
         "piece boundaries | stall with nothing/headers/each boundary sent | 301/404/500 with a body | connection refused) x "
         "(startup | --fetch-currency) printed by TLC from Cache.tla, run on the real rink binary against rv-httpd; then the "
         "next start with the server down (also with the cache aged past cache_duration). K: the same run repeated with "
@@ -735,7 +759,7 @@ def run(tier, seed):
                 successes += 1
                 if good is None and case["prior"] == "stale" and case["entry"] == "startup":
                     good = (case, obs["events"])
-        if successes == 0:
+        if successes == 0 and not run.violations:
             raise vlib.ToolError("no refresh succeeded against a well-behaved server: the success clause was not exercised")
         run.note("combinations", len(jobs))
         run.note("successful_refreshes_observed", successes)
@@ -747,11 +771,15 @@ def run(tier, seed):
         if thorough:
             sweep = [c for c, a, e in jobs if "bytes" not in c["server"]]
         else:
-            want = [("stale", "startup", "ok"), ("absent", "fetch", "ok"), ("stale", "startup", "status"), ("fresh", "fetch", "cut")]
-            sweep = []
-            for p, en, m in want:
-                sweep.append(next(c for c, a, e in jobs if (c["prior"], c["entry"], c["server"]["mode"]) == (p, en, m)
-                                  and c["server"]["k"] != 0))
+            def pick(c):
+                sv = c["server"]
+                if c["prior"] == "stale":
+                    return (sv["mode"], sv["k"], sv["code"]) in (("ok", pieces, 200), ("cut", 1, 200), ("stall", 1, 200),
+                                                                ("stall", -1, 200), ("status", 1, 500), ("refused", 0, 0))
+                return sv["mode"] == "ok" and (c["prior"], c["entry"]) in (("absent", "fetch"), ("garbage", "startup"))
+            sweep = [c for c, a, e in jobs if pick(c)]
+            if len(sweep) != 14:
+                raise vlib.ToolError("quick kill sweep: expected 14 combinations, selected %d" % len(sweep))
         kjobs = []
         for case in sweep:
             pts = results[case_key(case)]["kill_points"]
@@ -774,7 +802,7 @@ def run(tier, seed):
                 hits[h["syscall"]] = hits.get(h["syscall"], 0) + 1
             report(run, case, obs, viols, drifts)
             traces.append((case, obs["events"]))
-        if kjobs and not hits:
+        if kjobs and not hits and not run.violations:
             raise vlib.ToolError("kill sweep: no injected SIGKILL ever hit (strace inject not working?)")
         run.note("kill_runs", len(kjobs))
         run.note("kills_delivered_by_syscall", hits)
@@ -786,10 +814,9 @@ def run(tier, seed):
         t0 = time.time()
         nok, nrej = validate_traces(run, traces, "tr")
         log("[C20] V: %d traces validated, %d rejected in %.0fs" % (nok, nrej, time.time() - t0))
-        if good is None:
-            raise vlib.ToolError("no successful stale/startup refresh recorded for the corrupted-trace self-check")
-        run.sample({"leg": "V", "trace": good[1][:14]})
-        corrupted_selfcheck(run, good)
+        if good is not None:
+            run.sample({"leg": "V", "trace": [e for e in good[1] if e["path_class"] != "other" or e["ev"] != "open"]})
+        corrupted_selfcheck(run, ctx, good)
     finally:
         ctx.close()
     return run.finish()
